@@ -607,6 +607,11 @@ def depends(F, fn, d, op, max_locals=400, use_bb=None):
     def scan_const(o):
         if isinstance(o, dict) and isinstance(o.get("k"), dict) and "str" in o["k"]:
             out["strs"].add(o["k"]["str"])
+        # a function item handed to a combinator (`.and_then(read_source)`) is called by it
+        if isinstance(o, dict) and isinstance(o.get("k"), dict) and isinstance(o["k"].get("fn"), dict):
+            nm = o["k"]["fn"].get("res") or o["k"]["fn"].get("def")
+            if nm:
+                out["calls"].add(short(nm))
 
     def scan_closure(cf):
         for b, i, s in cf.stmts():
